@@ -4,6 +4,7 @@ package props
 
 import (
 	"verif/checker/internal/core"
+	"verif/checker/internal/codec"
 	"verif/checker/internal/lib"
 	"verif/checker/internal/tmpl"
 )
@@ -49,7 +50,7 @@ func reg(p *Prop) {
 type E = []func(*core.Ctx)
 
 func init() {
-	for _, id := range []string{"C01", "C02", "C03", "C04", "C05", "C06", "C07", "C08", "C09", "C10", "C11", "C14", "C19"} {
+	for _, id := range []string{"C05", "C06", "C07", "C08", "C09", "C10", "C11", "C19"} {
 		NotYet[id] = "engine for this property is designed (DESIGN.md section 4) but not yet armed in this commit; not claimed until its check runs clean on the pinned tree"
 	}
 
@@ -155,5 +156,83 @@ func init() {
 			{Rule: "T.pure", Min: 12, Why: "7 package scans + registration write + 2 GenerateHelpers + 3 reader scans"},
 		},
 		Explanation: "Effect/who-may-call rules on all generator packages; see level text.",
+	})
+
+	reg(&Prop{
+		ID:        "C04",
+		Technique: "symbolic walk of the size and marshal closures to canonical wire sentences / length polynomials, compared with the protobuf wire spec instantiated from the statically parsed descriptor",
+		DesignRef: "DESIGN.md 3.2, 3.3, 4 C04",
+		LevelText: "For every field of every generated message type (checked-in packages and packages regenerated from the working-tree templates for the schema corpus) the size closure's contribution is, as a symbolic polynomial over tag sizes, Sov(value), len(...) and nested Size(...), equal to the byte length of the wire sentence the spec prescribes, and the marshal closure writes exactly that sentence (tag bytes, payload form, guard) with every write preceded by its own cursor decrement; the buffer is make([]byte, options.Size(x)); so Size = bytes written = reference size for every value and both option settings, the cursor ends at 0 and no write is out of range. The epilogue is append(input.Buf, dAtA...) / input.Buf = dAtA and a nil message returns the input buffer unchanged. Relies on C15 (Sov/EncodeVarint) and A1 (len(options.Marshal(m)) = options.Size(m) for nested m).",
+		Engines:      E{codec.RunSize, codec.RunEnc},
+		RulePrefixes: []string{"SIZE", "ENC.field", "ENC.total", "ENC.frame", "ENC.walk", "ENC.unknown", "G.model", "G.anchor", "GEN.build"},
+		Floors: []core.Floor{
+			{Rule: "SIZE.count", Min: 400, Why: "fields of S1 (255) + quick corpus"},
+			{Rule: "ENC.field", Min: 400, Why: "fields of S1 + quick corpus"},
+			{Rule: "SIZE.total", Min: 50, Why: "message types"},
+			{Rule: "ENC.frame", Min: 50, Why: "message types"},
+		},
+		Explanation: "SIZE/ENC symbolic walks against the wire spec; see level text.",
+	})
+
+	reg(&Prop{
+		ID:        "C02",
+		Technique: "symbolic walk of the marshal closure to a canonical wire sentence per field, compared with the wire spec (tags from protowire.AppendTag, payload forms, proto3 omission, LegacyFieldOrder, GenericKeyOrder comparator evaluated on all key orderings)",
+		DesignRef: "DESIGN.md 3.2, 3.6, 4 C02",
+		LevelText: "For every field of every generated type (checked-in and regenerated for the corpus, 1..5-byte tags, every map key/value kind pair in the thorough tier): the bytes written are exactly tag (= protowire.AppendTag) + payload form of the kind (minimal varints: the only varint writers are runtime.EncodeVarint, proved in C15, and the recognised inline packed loop whose reserved size must equal the sum of minimal sizes), packed iff the descriptor says so, under the proto3 omission predicate; blocks appear in the back-filled buffer as unknown, oneofs in reverse declaration order, fields in descending number (= reference 'legacy' order on the wire); map entries always carry key then value; when options.Deterministic all keys are collected, sorted by a comparator that is evaluated on every ordering of two keys and must equal ascending GenericKeyOrder (false<true), and reverse-iterated into the back-filled buffer. Byte equality with the reference as an executed comparison is not decided; it is implied by the above under A3.",
+		Engines:      E{codec.RunEnc, codec.RunOpts, lib.RunVarint},
+		RulePrefixes: []string{"ENC.field", "ENC.order", "ENC.total", "ENC.frame", "ENC.walk", "ENC.unknown", "DET.map", "DET.flow", "OPTS.det", "L.sov", "L.encvarint", "G.model", "G.anchor", "GEN.build"},
+		Floors: []core.Floor{
+			{Rule: "ENC.field", Min: 400, Why: "fields of S1 + quick corpus"},
+			{Rule: "ENC.order", Min: 300, Why: "plain fields + oneofs"},
+			{Rule: "DET.map", Min: 40, Why: "map fields"},
+			{Rule: "OPTS.det", Min: 2, Why: "size and marshal option mappings"},
+		},
+		Explanation: "ENC/DET symbolic walks against the wire spec; see level text.",
+	})
+	reg(&Prop{
+		ID:        "C01",
+		Technique: "symbolic walks of the marshal and unmarshal closures to canonical per-field summaries, each compared with the wire spec so that encode and decode forms are mutually inverse per kind",
+		DesignRef: "DESIGN.md 3.2, 3.4, 4 C01",
+		LevelText: "Per field of every generated type: the encoder's payload form and the decoder's read form are the inverse pair the spec prescribes for the kind (varint<->varint accumulated from a zeroed variable of the Go type, zig-zag encode/decode forms, little-endian fixed 4/8, Float bits/frombits so NaN payloads and -0 survive bit-exactly, copy for string/bytes, nested Marshal/Unmarshal through the same options); the decoder has exactly one arm per schema field storing into the Go field mapped to that number, accepting exactly the declared wire type(s); oneof members are emitted unconditionally and decoded as their wrapper; unknown bytes are emitted verbatim and collected verbatim; the encoder's omission guard is the proto3 presence predicate (so a skipped value is the zero value the decoder leaves); marshal's only error return is a nested Marshal error. Not decided: equality of the decoded value for all inputs as an executed comparison (follows from the inverse pairs under A3-A5); UTF-8 validity.",
+		Engines:      E{codec.RunEnc, codec.RunSize, codec.RunDec},
+		RulePrefixes: []string{"ENC", "DEC.form", "DEC.wire", "DEC.cases", "DEC.frame", "DEC.walk", "SIZE.count", "SIZE.walk", "UNK.default", "G.model", "G.anchor", "GEN.build"},
+		Floors: []core.Floor{
+			{Rule: "ENC.field", Min: 400, Why: "fields"},
+			{Rule: "DEC.form", Min: 400, Why: "arms"},
+			{Rule: "DEC.wire", Min: 400, Why: "arms"},
+			{Rule: "DEC.cases", Min: 50, Why: "message types"},
+		},
+		Explanation: "ENC/DEC symbolic walks; inverse pairs per kind; see level text.",
+	})
+	reg(&Prop{
+		ID:        "C03",
+		Technique: "symbolic interpretation of every decode arm (value provenance from zeroed accumulators, store operation, cursor discipline) compared with the decoding rules of the wire spec; option-mapping table for nested decodes",
+		DesignRef: "DESIGN.md 3.4, 3.9, 4 C03",
+		LevelText: "Per arm of every generated decoder: scalars are assigned from a varint accumulated into a zeroed variable (last wins, no residue of an earlier occurrence), repeated fields append, repeated numerics accept the element wire type and the packed form whose loop runs the same element reader until the payload end (so split runs and mixed forms concatenate), oneof members replace the interface value, map entries read key and value per record with defaults from zero-valued variables and store after the whole entry, singular messages decode into the existing value allocated only when nil, nested decodes use options.Unmarshal of the closure's options whose Merge flag is true (OPTS.merge), every other wire type is an error, the cursor ends exactly at the payload end. Concatenation = merge because the loop is a left fold over records. Open findings are reported as KNOWN-FINDING (F5 oneof message members, F6 map default, F16 varint map keys/values). Not decided: equality with the reference decoder on every stream as an executed comparison.",
+		Engines:      E{codec.RunDec, codec.RunOpts},
+		RulePrefixes: []string{"DEC", "OPTS.merge", "OPTS.map", "G.model", "G.anchor", "GEN.build"},
+		Floors: []core.Floor{
+			{Rule: "DEC.form", Min: 400, Why: "arms"},
+			{Rule: "DEC.wire", Min: 400, Why: "arms"},
+			{Rule: "DEC.mapaccum", Min: 40, Why: "map fields"},
+			{Rule: "OPTS.merge", Min: 1, Why: "UnmarshalInputToOptions"},
+		},
+		Explanation: "DEC symbolic interpretation; see level text.",
+	})
+	reg(&Prop{
+		ID:        "C14",
+		Technique: "structural rules on the default arm of every decoder (rewind, Skip, exact slice append under !DiscardUnknown, advance), on marshal/size unknown blocks, on GetUnknown/SetUnknown, and the option mapping of DiscardUnknown",
+		DesignRef: "DESIGN.md 4 C14",
+		LevelText: "For every generated type: the decoder has exactly one arm per schema field (so no known field reaches the default arm and no unknown number is decoded as a field); the default arm rewinds to the record start, measures the record with runtime.Skip (whose per-wire-type advance is decided in C15), appends exactly dAtA[start:start+n] to x.unknownFields iff !options.DiscardUnknown, and advances by n; options come from runtime.UnmarshalInputToOptions which maps the flag and is handed to every nested decode; marshal writes x.unknownFields first into the back-filled buffer (last on the wire) verbatim and size counts len(x.unknownFields); GetUnknown/SetUnknown read and replace exactly that field. Not decided: a known number arriving with a foreign wire type is rejected, not kept as unknown (outside well-typed streams).",
+		Engines:      E{codec.RunDec, codec.RunEnc, codec.RunSize, codec.RunUnkAccessors, codec.RunOpts},
+		RulePrefixes: []string{"UNK", "DEC.cases", "DEC.flags", "DEC.walk", "ENC.unknown", "ENC.walk", "SIZE.unknown", "SIZE.walk", "OPTS.discard", "G.model", "G.anchor", "GEN.build"},
+		Floors: []core.Floor{
+			{Rule: "UNK.default", Min: 50, Why: "message types"},
+			{Rule: "UNK.accessors", Min: 100, Why: "2 per message type"},
+			{Rule: "ENC.unknown", Min: 50, Why: "message types"},
+			{Rule: "SIZE.unknown", Min: 50, Why: "message types"},
+			{Rule: "OPTS.discard", Min: 1, Why: "UnmarshalInputToOptions"},
+		},
+		Explanation: "UNK rules; see level text.",
 	})
 }
